@@ -22,7 +22,7 @@ import (
 	"verifharness/memstore"
 )
 
-var stats = evid.New("C12", "rapid: one diamond, 2-5 concurrent actors drawn from {split A run 1, split A run 2 (same split ID), split B, commit, second commit, cancel}, each a goroutine running the real CLI flow whose metadata/vmetadata store calls are yield points of a harness-owned scheduler (a generated choice sequence decides which parked actor proceeds; one call executes at a time), optionally one actor crashing at its n-th store write (before/after it lands); then a sequential phase (retry of the crashed operation, late commit, late split of a done split, late new split, cancel). History invariants on the store trace and final state: at most one bundle; successful commit <=> exactly its bundle + diamond-done(done, that bundle); operations started after the terminal descriptor landed are refused; a done split cannot be rerun and at most one run writes split-done; the bundle holds exactly the files of the run recorded in split-done for every split done before the commit started, nothing of splits done after the commit began writing. Thorough additionally enumerates schedules of two-actor cases by re-execution (depth-first over the choice tree). Non-trivial: the trace shows a switch between actors inside an actor's call sequence, or a crash landed inside a commit; distinct by (actor multiset, crash class, phase-2 ops, interleaving shape hash class).")
+var stats = evid.New("C12", "rapid: one diamond, 2-5 concurrent actors drawn from {split A run 1, split A run 2 (same split ID), split B, empty split E, commit, second commit, cancel}, each a goroutine running the real CLI flow whose metadata/vmetadata store calls are yield points of a harness-owned scheduler (a generated choice sequence decides which parked actor proceeds; one call executes at a time), optionally one actor crashing at its n-th store write (before/after it lands); then a sequential phase (retry of the crashed operation, late commit, late split of a done split, late new split, late empty split, cancel), each of these optionally with one transient failure of its n-th read of a diamond/split descriptor (the operation may fail, but a terminated diamond must still refuse it and no second bundle may appear). History invariants on the store trace and final state: at most one bundle; successful commit <=> exactly its bundle + diamond-done(done, that bundle); operations started after the terminal descriptor landed are refused; a done split cannot be rerun and at most one run writes split-done; the bundle holds exactly the files of the run recorded in split-done for every split done before the commit started, nothing of splits done after the commit began writing. Thorough additionally enumerates schedules of two-actor cases by re-execution (depth-first over the choice tree). Non-trivial: the trace shows a switch between actors inside an actor's call sequence, or a crash landed inside a commit; distinct by (actor multiset, crash class, phase-2 ops, interleaving shape hash class).")
 
 const (
 	repo              = "repo"
@@ -47,6 +47,14 @@ type caseT struct {
 	Choices []int    `json:"choices"`
 	Phase2  []string `json:"phase2"` // retry | commit | resplitA | splitC | cancel
 	Batch   int      `json:"batch"`  // listing page size used by commits (0: default)
+	// P2Faults[i] (when set) makes one metadata read of the i-th phase-2 operation fail transiently
+	P2Faults []*faultT `json:"phase2_faults,omitempty"`
+}
+
+// faultT is one transient read failure: the Nth Get on a vmetadata key containing Key fails once
+type faultT struct {
+	Key string `json:"key"`
+	Nth int    `json:"nth"`
 }
 
 var trees = map[string]hx.Tree{
@@ -54,6 +62,7 @@ var trees = map[string]hx.Tree{
 	"splitA2": {"A/run2-only": []byte("a-run2"), "A/common": []byte("a-common-run2")},
 	"splitB":  {"B/file": []byte("b"), "B/other": []byte("b2")},
 	"splitC":  {"C/file": []byte("c")},
+	"splitE":  {}, // a split that contributes no file at all
 }
 
 func splitIDOf(kind string) string {
@@ -62,6 +71,8 @@ func splitIDOf(kind string) string {
 		return "split-A"
 	case "splitB":
 		return "split-B"
+	case "splitE":
+		return "split-E"
 	}
 	return "split-C"
 }
@@ -69,7 +80,7 @@ func splitIDOf(kind string) string {
 func drawCase(t *rapid.T) caseT {
 	c := caseT{}
 	n := rapid.IntRange(2, 5).Draw(t, "nactors")
-	pool := []string{"splitA1", "splitA2", "splitB", "commit", "commit2", "cancel"}
+	pool := []string{"splitA1", "splitA2", "splitB", "commit", "commit2", "cancel", "splitE"}
 	used := map[string]bool{}
 	for len(c.Actors) < n {
 		k := rapid.SampledFrom(pool).Draw(t, "actor")
@@ -93,7 +104,12 @@ func drawCase(t *rapid.T) caseT {
 	c.Batch = rapid.SampledFrom([]int{0, 0, 1, 2, 3, 4, 5, 8}).Draw(t, "batch")
 	np := rapid.IntRange(0, 3).Draw(t, "nphase2")
 	for i := 0; i < np; i++ {
-		c.Phase2 = append(c.Phase2, rapid.SampledFrom([]string{"retry", "commit", "commit", "resplitA", "splitC", "cancel"}).Draw(t, "p2"))
+		c.Phase2 = append(c.Phase2, rapid.SampledFrom([]string{"retry", "commit", "commit", "resplitA", "splitC", "cancel", "splitE"}).Draw(t, "p2"))
+		var f *faultT
+		if rapid.IntRange(0, 3).Draw(t, "p2fault") == 0 {
+			f = &faultT{Key: rapid.SampledFrom([]string{"diamond-done", "diamond-done", "diamond-running", "split-done", "split-running", "diamond-"}).Draw(t, "p2faultkey"), Nth: rapid.IntRange(1, 3).Draw(t, "p2faultnth")}
+		}
+		c.P2Faults = append(c.P2Faults, f)
 	}
 	return c
 }
@@ -117,7 +133,7 @@ type world struct {
 func (w *world) run(kind string, v *hx.Views) *result {
 	r := &result{}
 	switch kind {
-	case "splitA1", "splitA2", "splitB", "splitC":
+	case "splitA1", "splitA2", "splitB", "splitC", "splitE":
 		dir := w.sc.Dir(kind)
 		if err := trees[kind].Write(dir); err != nil {
 			r.err = fmt.Errorf("harness: %v", err)
@@ -231,9 +247,10 @@ func runCase(c caseT, forced []int) (runOutcome, error) {
 
 	// ---- phase 2: sequential operations by fresh processes
 	type p2res struct {
-		kind string
-		name string
-		res  *result
+		kind    string
+		name    string
+		res     *result
+		faulted bool
 		// state when it started
 		terminalBefore string // "", "done", "canceled"
 		splitADone     bool
@@ -262,6 +279,7 @@ func runCase(c caseT, forced []int) (runOutcome, error) {
 		return ids
 	}
 	crashedKind := ""
+	faultsHit := 0
 	crashLandedInCommitWindow := false
 	if c.Crash != nil {
 		name := fmt.Sprintf("%d-%s", c.Crash.Actor, c.Actors[c.Crash.Actor])
@@ -287,12 +305,22 @@ func runCase(c caseT, forced []int) (runOutcome, error) {
 		}
 		name := fmt.Sprintf("p2-%d-%s", i, kind)
 		v := w.env.Actor(name)
+		var mf *memstore.Fault
+		if i < len(c.P2Faults) && c.P2Faults[i] != nil {
+			mf = &memstore.Fault{Op: memstore.OpGet, KeySub: c.P2Faults[i].Key, Nth: c.P2Faults[i].Nth, Times: 1}
+			v.VMeta.AddFault(mf)
+		}
 		pr := p2res{kind: kind, name: name, terminalBefore: terminal(), splitADone: splitDone("split-A")}
-		anyDone := splitDone("split-A") || splitDone("split-B") || splitDone("split-C")
+		anyDone := splitDone("split-A") || splitDone("split-B") || splitDone("split-C") || splitDone("split-E")
 		noBundle := len(bundlesNow()) == 0
 		pr.res = w.run(kind, v)
+		faulted := mf != nil && mf.Hits > 0
+		pr.faulted = faulted
+		if faulted {
+			faultsHit++
+		}
 		// control arm: an undisturbed commit of a ready diamond with a completed split must succeed
-		if strings.HasPrefix(kind, "commit") && pr.terminalBefore == "" && anyDone && noBundle && pr.res.err != nil {
+		if strings.HasPrefix(kind, "commit") && pr.terminalBefore == "" && anyDone && noBundle && !faulted && pr.res.err != nil {
 			return out, fmt.Errorf("I6: an undisturbed commit of a ready diamond with completed splits failed: %v", pr.res.err)
 		}
 		w.results[name] = pr.res
@@ -373,7 +401,7 @@ func runCase(c caseT, forced []int) (runOutcome, error) {
 			if pr.res.err == nil {
 				return out, fmt.Errorf("I3: split-A was done and a new run of it succeeded")
 			}
-			if !errors.Is(pr.res.err, corestatus.ErrSplitAlreadyDone) {
+			if !pr.faulted && !errors.Is(pr.res.err, corestatus.ErrSplitAlreadyDone) {
 				return out, fmt.Errorf("I3: rerun of done split-A failed with %v, want ErrSplitAlreadyDone", pr.res.err)
 			}
 		}
@@ -411,7 +439,7 @@ func runCase(c caseT, forced []int) (runOutcome, error) {
 			got[e.NameWithPath] = e.Hash
 		}
 		want := map[string]bool{}
-		for _, sid := range []string{"split-A", "split-B", "split-C"} {
+		for _, sid := range []string{"split-A", "split-B", "split-C", "split-E"} {
 			doneAt := landedAt("/splits/" + sid + "/split-done.yaml")
 			var files hx.Tree
 			if doneAt != 0 {
@@ -419,7 +447,7 @@ func runCase(c caseT, forced []int) (runOutcome, error) {
 				var sd model.SplitDescriptor
 				_ = yaml.Unmarshal(raw, &sd)
 				fl, ok := w.env.VMeta.RawGet(model.GetArchivePathToSplitFileList(repo, w.diamondID, sid, sd.GenerationID, 0))
-				if !ok {
+				if !ok && sid != "split-E" {
 					return out, fmt.Errorf("I4: split-done of %s records generation %s which has no file list", sid, sd.GenerationID)
 				}
 				var be model.BundleEntries
@@ -438,7 +466,7 @@ func runCase(c caseT, forced []int) (runOutcome, error) {
 			}
 			switch {
 			case doneAt != 0 && doneAt < cs: // done before the commit started: must be included
-				if !present {
+				if !present && sid != "split-E" {
 					return out, fmt.Errorf("I4: %s was complete before the commit started but its files are missing from the bundle; history %v", sid, sched.History)
 				}
 			case doneAt == 0 || doneAt > cm: // not done when the commit began writing: must not be included
@@ -493,7 +521,10 @@ func runCase(c caseT, forced []int) (runOutcome, error) {
 	case switches > 0:
 		swCls = "1-2"
 	}
-	out.sig = fmt.Sprintf("actors=%s crash=%s p2=%s switches=%s term=%s bundles=%d", strings.Join(kinds, "+"), crashCls, strings.Join(c.Phase2, "+"), swCls, termState, len(bundles))
+	out.sig = fmt.Sprintf("actors=%s crash=%s p2=%s switches=%s term=%s bundles=%d readfaults=%d", strings.Join(kinds, "+"), crashCls, strings.Join(c.Phase2, "+"), swCls, termState, len(bundles), faultsHit)
+	if faultsHit > 0 {
+		stats.Count("phase2_read_faults_hit", faultsHit)
+	}
 	out.nontrivial = switches > 0 || crashLandedInCommitWindow
 	return out, nil
 }
